@@ -13,6 +13,8 @@ evaluated on the real emitted text:
   M6 layouts-agree       (C16)  READ_STATEMENTS and EXEC_CLASSES declare the same variables with the same initialisers
                                 (modulo which use of a variable is the raw one and which are DUPs)
   M7 rejected-not-dropped(C15)  an instruction is either compiled or raises; no emitted text mentions a lark Tree/Token
+  M8 node-well-formed    (C02/C03/C10) the callback postcondition WF(result) of spec/ir.py evaluated on every real node registered
+                                while compiling, plus the conversion class of every Cast (which shipped instructions reach a known finding)
 This supplies the cover evidence that the contracts' preconditions are reached by the shipped input and catches
 contract / code disagreements on real data.  Results are reported under `monitored_corpus_run` and as obligations
 flagged `bounded` (never counted as proved).
@@ -272,12 +274,63 @@ def _compilers(names=None):
     return a, b
 
 
-def _compile(c, name, parsed):
+_NODES = []
+
+
+def _install_node_monitor():
+    """M8: the callback postcondition WF(result) (spec/ir.py) evaluated on every REAL node the callbacks register while the corpus is
+    compiled, and the conversion class of every Cast (the C03 contract's case split).  Sidecar: add_op is wrapped in this process only."""
+    from rzilcompiler.Transformer.RZILTransformer import RZILTransformer
+    from spec import ir
+    if getattr(RZILTransformer.add_op, "_monitored", False):
+        return
+    orig = RZILTransformer.add_op
+
+    def add_op(self, op):
+        r = orig(self, op)
+        try:
+            _observe(r)
+        except Exception as e:      # a monitor never alters the behaviour it observes
+            _NODES.append(f"monitor error: {type(e).__name__}: {e}")
+        return r
+
+    def _observe(r):
+        names = {c.__name__ for c in type(r).__mro__}
+        if "Pure" in names and "Effect" not in names and getattr(r, "value_type", None) is not None:
+            try:
+                flags, structs = ir.wf_split(r)
+            except Exception as e:
+                flags, structs = [], [f"WF could not be evaluated: {type(e).__name__}: {e}"]
+            tags = []
+            for f in flags:
+                tags.append(("bool-sorted node typed without the BOOL flag" if "sort is bool" in f else "integer node typed with the BOOL flag") + f" ({type(r).__name__})")
+            for st in structs:
+                if "no ghost meaning" in st:
+                    continue        # plugin macros / memory loads have no den in spec/ir.py: nothing to check, not a finding
+                st = re.sub(r"<[^>]*>:? ?", "", st)
+                tags.append(re.sub(r"\d+", "N", st)[:90] + f" ({type(r).__name__})")
+            if "Cast" in names and r.ops and getattr(r.ops[0], "value_type", None) is not None:
+                sv, dv = r.ops[0].value_type, r.value_type
+                if sv.signed and not dv.signed and int(dv.bit_width) > int(sv.bit_width):
+                    try:
+                        is_bool = ir.sort(r.ops[0]) == "bool"
+                    except Exception:
+                        is_bool = False
+                    if not is_bool and "Number" not in {c.__name__ for c in type(r.ops[0]).__mro__}:
+                        tags.append("signed source widened to an unsigned target (emitted with a zero fill, C sign-extends)")
+            if tags:
+                _NODES.extend(tags)
+    add_op._monitored = True
+    RZILTransformer.add_op = add_op
+
+
+def _compile(c, name, parsed, monitor=False):
     buf = io.StringIO()
+    del _NODES[:]
     try:
         with contextlib.redirect_stdout(buf), contextlib.redirect_stderr(io.StringIO()):
             r = c.transform_insn(name, parsed)
-        return ("ok", list(r.rzil), [list(m) for m in r.meta])
+        return ("ok", list(r.rzil), [list(m) for m in r.meta], sorted(set(_NODES)) if monitor else [])
     except Exception as e:     # rejected: that is an allowed outcome; the class is recorded
         return ("rejected", type(e).__name__, str(e)[:160])
 
@@ -285,6 +338,7 @@ def _compile(c, name, parsed):
 def run_corpus(limit=None, names=None):
     """-> dict(results per instruction).  Native; cwd must be the repository."""
     t0 = time.time()
+    _install_node_monitor()
     a, b = _compilers(names)
     res = {}
     items = list(a.parsed_insns.items())
@@ -296,9 +350,11 @@ def run_corpus(limit=None, names=None):
         if parsed.exception:
             res[name] = {"outcome": "parse-rejected", "exception": parsed.exception.name}
             continue
-        ra = _compile(a, name, parsed)
+        ra = _compile(a, name, parsed, monitor=True)
         rb = _compile(b, name, parsed)
         ent = {"outcome": ra[0], "parts": len(parsed.behaviors), "problems": []}
+        if ra[0] == "ok":
+            ent["problems"] += [("M8 node-well-formed", t) for t in ra[3]]
         if ra[0] != rb[0]:
             ent["problems"].append(("M6 layouts-agree", f"READ_STATEMENTS: {ra[0]}, EXEC_CLASSES: {rb[0]} {rb[1:]}"))
         if ra[0] == "ok":
@@ -360,6 +416,16 @@ def monitored_run(check, limit=None):
         if e["outcome"] == "rejected":
             for c, d in e.get("problems", []):
                 fails.setdefault(c, []).append((n, d))
+    m8 = fails.pop("M8 node-well-formed", [])
+    by_tag = {}
+    for n, d in m8:
+        by_tag.setdefault(d, []).append(n)
+    check.ob("corpus(run-time)#M8 node-well-formed", f"{len(acc) - len({n for n, _ in m8})} accepted instructions whose every registered node satisfies WF", [], True, bounded=True, family="runtime-monitor")
+    for tag, ns in sorted(by_tag.items()):
+        for n in sorted(set(ns)):
+            check.ob("corpus(run-time)#M8 node-well-formed", f"{tag} :: {n}", [], False, bounded=True, family="runtime-monitor", detail=f"{n}: {tag}",
+                     replay=("corpus.insn", lambda mdl, n=n: {"name": n, "clause": "M8 node-well-formed"}), observed_natively=True)
+    check.extra["corpus_instructions_per_node_finding"] = {tag: len(set(ns)) for tag, ns in by_tag.items()}
     for c in clauses:
         bad = {}
         for n, d in fails[c]:
